@@ -22,12 +22,26 @@ def canonicalNat? (s : String) : Option Nat :=
     | some k => if toString k = s then some k else none
     | none => none
 
+/-- digits of a positional literal (`0x…` hexadecimal in either case, `0b…` binary): bmnumbers' unsized forms -/
+def radixVal? (base : Nat) (s : String) : Option Nat :=
+  if s.isEmpty then none else
+  s.toList.foldl (fun acc ch => acc.bind fun a =>
+    let d : Option Nat :=
+      if ch.isDigit then some (ch.toNat - '0'.toNat)
+      else if 'a' ≤ ch ∧ ch ≤ 'f' then some (10 + (ch.toNat - 'a'.toNat))
+      else if 'A' ≤ ch ∧ ch ≤ 'F' then some (10 + (ch.toNat - 'A'.toNat))
+      else none
+    d.bind fun v => if v < base then some (a * base + v) else none) (some 0)
+
 def parseArg (t : String) : Option Arg :=
   let rest := (t.drop 1).toString
   if t.startsWith "r" && (canonicalNat? rest).isSome then (canonicalNat? rest).map .reg
   else if t.startsWith "i" && (canonicalNat? rest).isSome then (canonicalNat? rest).map .inp
   else if t.startsWith "o" && (canonicalNat? rest).isSome then (canonicalNat? rest).map .out
   else if !t.isEmpty && t.all Char.isDigit then (canonicalNat? t).map .num
+  else if t.startsWith "0x" then (radixVal? 16 (t.drop 2).toString).map .num
+  else if t.startsWith "0b" then (radixVal? 2 (t.drop 2).toString).map .num
+  else if t.startsWith "0u" || t.startsWith "0d" then (radixVal? 10 (t.drop 2).toString).map .num
   else if t.startsWith "rom:[r" && t.endsWith "]" then
     (canonicalNat? ((t.drop 6).dropEnd 1).toString).map .romReg
   else if t.startsWith "rom:" then
